@@ -264,9 +264,8 @@ class Comparison(Display):
                                 f"{param2.physical_constant_value!r}")
 
             elif (isinstance(param1, ValueParameter) and isinstance(param2, ValueParameter) and
-                  param1.physical_default_value is not None and
-                  param2.physical_default_value is not None and
                   param1.physical_default_value != param2.physical_default_value):
+                # (this includes a default value which has been added or removed)
                 if isinstance(param1.physical_default_value, int) and isinstance(
                         param2.physical_default_value, int):
                     append_list(
